@@ -72,6 +72,31 @@ pub struct Step {
 pub struct Case {
     pub compression: bool,
     pub steps: Vec<Step>,
+    /// family B (long-lived iterator across whole appends and rollovers); `steps` is empty then
+    #[serde(default)]
+    pub iter: Option<IterCase>,
+}
+
+#[derive(Serialize, Deserialize, Clone, Copy, Debug, PartialEq, Eq, Hash)]
+pub enum IterKind {
+    Stream,
+    StreamReverse,
+    Partition,
+}
+
+/// Family B: `pre` acknowledged appends, then an iterator is opened at `from`, `reads[0]` batches are
+/// read, `mids[0]` more appends are acknowledged, `reads[1]` batches, `mids[1]` appends, then the
+/// iterator is drained.  Appends are ~50 KiB events (every second one seals a 128 KiB segment); with
+/// `mix` every second append goes to another stream of the same partition.
+#[derive(Serialize, Deserialize, Clone, Debug, PartialEq, Eq, Hash)]
+pub struct IterCase {
+    pub kind: IterKind,
+    pub from: u64,
+    pub batch: usize,
+    pub mix: bool,
+    pub pre: usize,
+    pub reads: [usize; 2],
+    pub mids: [usize; 2],
 }
 
 fn call_class(c: Call) -> &'static str {
@@ -121,7 +146,7 @@ pub fn cases(tier: Tier) -> Vec<Case> {
         // one call, unsplit, at every writer position
         for &c in &calls {
             for at in 0..N_POS {
-                v.push(Case { compression, steps: vec![Step { call: c, split: None, at, resume_at: at }] });
+                v.push(Case { compression, iter: None, steps: vec![Step { call: c, split: None, at, resume_at: at }] });
             }
             // one call split at each of its internal points: all (start, resume) pairs
             for s in splits_for(c) {
@@ -132,7 +157,7 @@ pub fn cases(tier: Tier) -> Vec<Case> {
                         if !tier.is_thorough() && resume_at > at + 4 && s != "iter:after-segment-id-load" {
                             continue;
                         }
-                        v.push(Case { compression, steps: vec![Step { call: c, split: Some(s.to_string()), at, resume_at }] });
+                        v.push(Case { compression, iter: None, steps: vec![Step { call: c, split: Some(s.to_string()), at, resume_at }] });
                     }
                 }
             }
@@ -149,13 +174,198 @@ pub fn cases(tier: Tier) -> Vec<Case> {
                         if a == b {
                             continue;
                         }
-                        v.push(Case { compression, steps: vec![Step { call: c1, split: None, at: a, resume_at: a }, Step { call: c2, split: None, at: b, resume_at: b }] });
+                        v.push(Case { compression, iter: None, steps: vec![Step { call: c1, split: None, at: a, resume_at: a }, Step { call: c2, split: None, at: b, resume_at: b }] });
                     }
                 }
             }
         }
     }
+    v.extend(iter_cases(tier));
     v
+}
+
+/// Family B grid.
+fn iter_cases(tier: Tier) -> Vec<Case> {
+    let mut v = Vec::new();
+    let thorough = tier.is_thorough();
+    let kinds = [IterKind::Stream, IterKind::Partition, IterKind::StreamReverse];
+    let batches: &[usize] = if thorough { &[1, 2, 50] } else { &[1, 50] };
+    let pres: Vec<usize> = if thorough { (0..=6).collect() } else { vec![1, 3, 5] };
+    for &kind in &kinds {
+        for &batch in batches {
+            for &mix in &[false, true] {
+                if mix && !thorough && batch != 1 {
+                    continue;
+                }
+                for &pre in &pres {
+                    let froms: Vec<u64> = if kind == IterKind::StreamReverse { vec![u64::MAX] } else if thorough { vec![0, 1, pre as u64] } else { vec![0, pre as u64] };
+                    for &from in &froms {
+                        let r0s: Vec<usize> = if thorough { vec![0, 1, 2] } else { vec![0, 1] };
+                        for &r0 in &r0s {
+                            for m0 in if thorough { vec![1usize, 2, 3, 4] } else { vec![2usize, 4] } {
+                                for (r1, m1) in if thorough { vec![(0usize, 0usize), (1, 2), (2, 1)] } else { vec![(0usize, 0usize), (1, 2)] } {
+                                    v.push(Case { compression: true, steps: vec![], iter: Some(IterCase { kind, from, batch, mix, pre, reads: [r0, r1], mids: [m0, m1] }) });
+                                }
+                            }
+                        }
+                    }
+                }
+            }
+        }
+    }
+    v.sort_by_key(|c| serde_json::to_string(c).unwrap());
+    v.dedup_by_key(|c| serde_json::to_string(c).unwrap());
+    v
+}
+
+enum OpenIter {
+    S(sierradb::bucket::iter::StreamIter),
+    P(sierradb::bucket::iter::PartitionIter),
+}
+
+fn run_iter_case(case: &Case, ic: &IterCase, out: &mut WorkerOut) {
+    pause::disable_all();
+    let cfg = DbCfg::simple(MIN_SEG, case.compression, SyncMode::EveryWrite);
+    let mut h = match H::new(cfg, "c15b") {
+        Ok(h) => h,
+        Err(e) => vcommon::machinery_fail(&format!("open: {e}")),
+    };
+    let case_json = serde_json::to_value(case).unwrap();
+    let part = partition_of(0);
+    // ids of the events the scan is about (stream s0, or the whole partition), in position order
+    let mut wanted: Vec<u128> = Vec::new();
+    let mut n_appends = 0usize;
+    let mut append = |h: &mut H, wanted: &mut Vec<u128>| -> bool {
+        let stream = if ic.mix && n_appends % 2 == 1 { 1 } else { 0 };
+        n_appends += 1;
+        let id = event_id(0, h.counter + 1).as_u128();
+        if h.append(&TxS::single(0, stream, Size::Block)).is_err() {
+            return false;
+        }
+        if stream == 0 || ic.kind == IterKind::Partition {
+            wanted.push(id);
+        }
+        true
+    };
+    for _ in 0..ic.pre {
+        if !append(&mut h, &mut wanted) {
+            out.outcome("setup-problem");
+            return;
+        }
+    }
+    let acked_at_open = wanted.len();
+    let db = h.db().clone();
+    let opened = h.rt.block_on(async {
+        match ic.kind {
+            IterKind::Stream => db.read_stream(part, StreamId::new("s0").unwrap(), ic.from, IterDirection::Forward).await.map(OpenIter::S).map_err(|e| e.to_string()),
+            IterKind::StreamReverse => db.read_stream(part, StreamId::new("s0").unwrap(), ic.from, IterDirection::Reverse).await.map(OpenIter::S).map_err(|e| e.to_string()),
+            IterKind::Partition => db.read_partition(part, ic.from, IterDirection::Forward).await.map(OpenIter::P).map_err(|e| e.to_string()),
+        }
+    });
+    let mut it = match opened {
+        Ok(it) => it,
+        Err(e) => {
+            out.violation(&format!("C15/iterator/open-failed/{:?}", ic.kind), &format!("opening the scan failed with a healthy disk: {e}"), case_json);
+            return;
+        }
+    };
+    let mut got: Vec<u128> = Vec::new();
+    let mut error: Option<String> = None;
+    let mut exhausted_reads = 0u32;
+    let mut read = |h: &H, it: &mut OpenIter, got: &mut Vec<u128>, n: Option<usize>| {
+        let mut k = 0;
+        loop {
+            if let Some(n) = n {
+                if k >= n {
+                    break;
+                }
+            }
+            k += 1;
+            if k > 200 {
+                error = Some("the scan does not terminate".into());
+                break;
+            }
+            let r = h.rt.block_on(async {
+                tokio::time::timeout(Duration::from_secs(20), async {
+                    match it {
+                        OpenIter::S(i) => i.next_batch(ic.batch).await.map_err(|e| e.to_string()),
+                        OpenIter::P(i) => i.next_batch(ic.batch).await.map_err(|e| e.to_string()),
+                    }
+                })
+                .await
+            });
+            match r {
+                Err(_) => {
+                    error = Some("next_batch did not return within 20 s".into());
+                    break;
+                }
+                Ok(Err(e)) => {
+                    error = Some(e);
+                    break;
+                }
+                Ok(Ok(None)) => {
+                    exhausted_reads += 1;
+                    if n.is_none() {
+                        break;
+                    }
+                }
+                Ok(Ok(Some(b))) => {
+                    for g in b {
+                        got.extend(g.into_iter().filter(|e| ic.kind == IterKind::Partition || e.stream_id.as_ref() as &str == "s0").map(|e| e.event_id.as_u128()));
+                    }
+                }
+            }
+        }
+    };
+    out.transitions += 1;
+    for phase in 0..2 {
+        read(&h, &mut it, &mut got, Some(ic.reads[phase]));
+        out.transitions += ic.reads[phase] as u64;
+        for _ in 0..ic.mids[phase] {
+            if !append(&mut h, &mut wanted) {
+                out.outcome("setup-problem");
+                return;
+            }
+            out.transitions += 1;
+        }
+    }
+    read(&h, &mut it, &mut got, None);
+    drop(it);
+    let pos = |ids: &[u128]| -> Vec<String> { ids.iter().map(|g| wanted.iter().position(|x| x == g).map(|p| format!("#{p}")).unwrap_or("?".into())).collect() };
+    let label = format!("{:?}/mix={}", ic.kind, ic.mix);
+    if let Some(e) = error {
+        out.violation(&format!("C15/iterator/read-error/{label}"), &format!("next_batch failed with a healthy disk: {e} [{}]", serde_json::to_string(ic).unwrap()), case_json.clone());
+    } else {
+        // expected: a contiguous run that starts at the start position and covers at least everything
+        // acknowledged before the scan was opened
+        let ok = if ic.kind == IterKind::StreamReverse {
+            let n = got.len();
+            n >= acked_at_open && n <= wanted.len() && got.iter().rev().eq(wanted[..n].iter())
+        } else {
+            let from = (ic.from as usize).min(wanted.len());
+            let must = acked_at_open.saturating_sub(from);
+            got.len() >= must && from + got.len() <= wanted.len() && got[..] == wanted[from..from + got.len()]
+        };
+        if !ok {
+            let what = if got.len() < acked_at_open.saturating_sub(if ic.kind == IterKind::StreamReverse { 0 } else { ic.from as usize }) { "lost-acked-events" } else { "wrong-sequence" };
+            out.violation(
+                &format!("C15/iterator/{what}/{label}"),
+                &format!(
+                    "a scan opened after {acked_at_open} matching events were acknowledged (start {}), read across {} more appends, returned positions {:?} [{}]",
+                    if ic.from == u64::MAX { "newest".to_string() } else { ic.from.to_string() },
+                    ic.mids[0] + ic.mids[1],
+                    pos(&got),
+                    serde_json::to_string(ic).unwrap()
+                ),
+                case_json.clone(),
+            );
+        }
+    }
+    out.state(vcommon::fnv(format!("{:?}{}{}", ic, got.len(), exhausted_reads).as_bytes()));
+    out.outcome(format!("iter:{:?}:{}of{}", ic.kind, got.len(), wanted.len()));
+    if out.cases_done % 80 == 0 {
+        out.sample(case_json);
+    }
 }
 
 /// What a call observed, reduced to what the oracle needs.
@@ -261,6 +471,9 @@ impl Writer {
 }
 
 pub fn run_case(case: &Case, out: &mut WorkerOut) {
+    if let Some(ic) = &case.iter {
+        return run_iter_case(case, ic, out);
+    }
     pause::disable_all();
     let cfg = DbCfg::simple(MIN_SEG, case.compression, SyncMode::EveryWrite);
     let mut h = match H::new(cfg, "c15") {
@@ -505,11 +718,12 @@ pub fn run(args: Args) {
                 "distinct_observed_outcomes": m.outcomes.len(),
                 "writer_positions": WRITER_POINTS,
                 "reader_split_points": ["read_transaction:after-index-lookup", "get_stream_version:after-live-miss", "get_partition_sequence:after-live-miss", "iter:after-segment-id-load", "iter:before-closed-segments", "segiter:between-cache-and-pool"],
+                "family_b": "long-lived iterators (stream forward / reverse, partition) opened after 0..6 acknowledged appends, read in up to two instalments with 1..4 and 0..2 further acknowledged appends (each second one seals a segment) in between, then drained; the scan must return a contiguous run from its start position that covers everything acknowledged before it was opened",
                 "rule": "schedule = reader program (1 call unsplit / 1 call split at an internal pause point / 2 calls) x writer positions of each (half-)step, non-decreasing; all of them; every schedule is executed on a real database with the writer thread parked at the stated pause points",
             }),
             vec![
                 "seam granularity: writer and reader are stopped at the pause points of hook H2; OS-level interleavings inside a step (rayon broadcast, tokio RwLock hand-off) are not enumerated".into(),
-                "one writer thread, one bucket, the rollover is the third append; a second concurrent rollover is not covered".into(),
+                "one writer thread, one bucket; family A stops the writer inside the rollover of the third append, family B interleaves iterator steps with whole appends across up to three rollovers".into(),
             ],
         )
     })
